@@ -5,7 +5,7 @@ From Coq Require Import NArith.
 From Carquet Require Import Simd.DispatchModel Simd.Vec Simd.X86Sem Simd.ScalarKernels Simd.SseKernels
   Simd.Avx2Kernels Simd.Avx512Kernels.
 Extraction Language OCaml.
-Extraction "extracted/simd_ext.ml" N.add Nat.add DispatchModel.dispatch_indices
+Extraction "extracted/simd_ext.ml" N.add Nat.add DispatchModel.dispatch_indices X86Sem.intr_eval
   ScalarKernels.scalar_bss_encode ScalarKernels.scalar_bss_decode
   SseKernels.sse_bss_encode_float SseKernels.sse_bss_decode_float SseKernels.sse_bss_encode_double SseKernels.sse_bss_decode_double
   Avx2Kernels.avx2_bss_encode_float Avx2Kernels.avx2_bss_decode_float Avx2Kernels.avx2_bss_encode_double Avx2Kernels.avx2_bss_decode_double
